@@ -8,5 +8,6 @@ CONSTANTS
   PerSegmentStats = TRUE
   Queries <- MCQueries
   Table <- MCTable
+  MCLeaderFieldNorm = FALSE
 INVARIANT ScoreSegmentationIndependent
 CHECK_DEADLOCK FALSE
